@@ -31,8 +31,8 @@ ColoursOK(s, cols) ==
   /\ \A r \in 1..s.L, c \in 1..s.C : ColourOK(s.g[r][c].fg, cols) /\ ColourOK(s.g[r][c].bg, cols)
   /\ ColourOK(s.attr.fg, cols) /\ ColourOK(s.attr.bg, cols)
 \* what the specification's operators need in order to be defined on s
-WellFormedCore(s) == Shape(s) /\ CursorOK(s) /\ MarginsOK(s) /\ DirtyOK(s)
-WellFormed(s, cols) == WellFormedCore(s) /\ ColoursOK(s, cols)
+WellFormedCore(s) == Shape(s) /\ CursorOK(s) /\ MarginsOK(s)
+WellFormed(s, cols) == WellFormedCore(s) /\ DirtyOK(s) /\ ColoursOK(s, cols)
 \* names of the violated clauses, for reports
 WellFormedBad(s, cols) ==
   (IF Shape(s) THEN {} ELSE {"shape"}) \cup (IF CursorOK(s) THEN {} ELSE {"cursor"}) \cup
@@ -43,6 +43,12 @@ WellFormedBad(s, cols) ==
 (* scopes                                                                    *)
 \* does a draw go through a non-identity translation (then its text is C20's business)
 Translated(s, ev) == \E i \in 1..Len(ev.s) : Translate(ActiveTable(s), ev.s[i]) # ev.s[i]
+\* a translated draw whose placement is the plain case (every translated character
+\* narrow, replace mode, not at the pending-wrap column): what is left to judge is
+\* the translation itself
+SimpleDraw(s, ev) ==
+  /\ s.x < s.C /\ IRM \notin s.modes
+  /\ \A i \in 1..Len(ev.s) : W(ev.wm, Translate(ActiveTable(s), ev.s[i])) = 1
 
 C05Ops == {"cuu","cud","cuf","cub","cnl","cpl","cha","vpa","cup","bs","cr"}
 C06Ops == {"ind","lf","ri","il","dl","decstbm"}
@@ -71,7 +77,7 @@ InScope(id, pre, ev) ==
     [] id = "C16" -> ev.op \in C16Ops
     [] id = "C18" -> ev.op \in C18Ops
     [] id = "C19" -> ev.op \in C19Ops
-    [] id = "C20" -> ev.op \in C20Ops \/ (ev.op = "draw" /\ Translated(pre, ev))
+    [] id = "C20" -> ev.op \in C20Ops \/ (ev.op = "draw" /\ Translated(pre, ev) /\ SimpleDraw(pre, ev))
     [] id = "ALL" -> ev.op \in KnownOps \ {"display"}
     [] OTHER -> FALSE
 
@@ -90,7 +96,7 @@ Bad_Det(pre, ev, post) == DiffFields(Apply(pre, ev), post, NoDirty)
 Bad_C04(pre, ev, post) ==
   LET a == DiffFields(Apply(pre, ev), post, NoDirty) IN
   IF a = {} THEN {} ELSE
-    LET b == DiffFields(ApplyZ(pre, ev, TRUE), post, NoDirty) IN IF b = {} THEN {} ELSE a
+    LET b == DiffFields(ApplyZ(pre, ev, FALSE), post, NoDirty) IN IF b = {} THEN {} ELSE a
 
 \* C15: everything, including "every row dirty"
 Bad_C15(pre, ev, post) ==
@@ -147,7 +153,8 @@ ScreenWide(pre, ev) ==
 NeedNext(need, pre, ev, post) ==
   IF ev.op = "cleardirty" THEN {}
   ELSE ((need \cap RowsOf(post)) \cup Changed(pre, post)) \cup (IF ScreenWide(pre, ev) THEN RowsOf(post) ELSE {})
-Bad_C17(need1, post) ==
-  (IF need1 \subseteq post.dirty THEN {} ELSE {"dirty-missing"}) \cup
-  (IF post.dirty \subseteq RowsOf(post) THEN {} ELSE {"dirty-stale"})
+\* a row is reported when it becomes missing / stale, not again while it stays so
+Bad_C17(need0, pre, need1, post) ==
+  (IF (need1 \ post.dirty) \subseteq (need0 \ pre.dirty) THEN {} ELSE {"dirty-missing"}) \cup
+  (IF (post.dirty \ RowsOf(post)) \subseteq (pre.dirty \ RowsOf(pre)) THEN {} ELSE {"dirty-stale"})
 =============================================================================
